@@ -17,8 +17,10 @@ last record that had one: `task->args` is only replaced when `rstack->more`), an
 `func_stack[]` with `addr`, `total_time` (start time while the call is open, duration
 after its EXIT), `valid`, `flags` (NORECORD / FILTERED / NOTRACE) and `orig_depth`.
 
-Not modelled: `func_stack` overflow beyond `hdr.max_stack`, exec/setjmp/longjmp/fork
-fixups, LOST/EVENT records, location/size/caller filters and depth/time/trace_on/
+The exec / setjmp / longjmp / fork fix-ups of fstack_entry and fstack_update (by symbol name) are in
+the `…X` functions of the section "fix-up records": `scriptRunX` / `replayShownX` are the two loops
+with them; without fix-up symbols they are `scriptRun` / `replayShown`.
+Not modelled: `func_stack` overflow beyond `hdr.max_stack`, LOST/EVENT records, location/size/caller filters and depth/time/trace_on/
 trace_off/hide triggers, kernel and perf records.  Time differences are taken on uint64_t
 (`sub64`).  Function names are function addresses (one
 symbol per address), a UFTRACE_FUNCS entry is the address of the function it names;
@@ -48,6 +50,12 @@ deriving DecidableEq, Repr, Inhabited
 
 def Rec.more (r : Rec) : Bool := r.payload != 0
 
+/-- what `uftrace_match_filter(addr, &sess->fixups, tr)` finds for a function (`fixup_syms[]`, matched
+    by symbol name): `exec*`, `*setjmp*`, `*longjmp*`, `fork` / `vfork` / `daemon` -/
+inductive FixKind where
+  | none | exec | setjmp | longjmp | fork
+deriving DecidableEq, Repr, Inhabited
+
 structure Cfg where
   /-- `uftrace_match_filter(addr, &sess->filters, &tr)`: `some true` = -F, `some false` = -N -/
   filt : Nat → Option Bool := fun _ => none
@@ -66,6 +74,14 @@ structure Cfg where
   /-- false: cmds/script.c before the repair of finding F-C18-ARGS (ENTRY arguments are
       taken when the *trigger* has an argspec instead of when the record has a payload) -/
   argsFixed : Bool := true
+  /-- false: cmds/replay.c before the repair of finding F-C18-EXIT-ADDR (the `addr` field of an EXIT line
+      is the address left in the frame's slot by the last ENTRY at that stack index — 0 for the first
+      record of a forked child, another function after a longjmp — instead of the record's) -/
+  exitAddrFixed : Bool := true
+  /-- the fix-up kind of a function (by its symbol name) -/
+  fix : Nat → FixKind := fun _ => .none
+  /-- `task->t->ppid` as a task index: the task this one was forked from -/
+  parent : Nat → Option Nat := fun _ => none
 
 structure Frame where
   addr : Nat := 0
@@ -300,7 +316,8 @@ def replayExitSt (s : TaskSt) : TaskSt :=
 def replayExitLine (cfg : Cfg) (tid : Nat) (s : TaskSt) (r : Rec) : List Shown :=
   if !(s.slots s.stackCount).norecord then
     [{ exit := true, tid := tid, depth := exitDisp s, time := r.time, dur := (s.slots s.stackCount).total,
-       addr := r.addr, args := if r.more && cfg.showArgs then s.args else 0 }]
+       addr := if cfg.exitAddrFixed then r.addr else (s.slots s.stackCount).addr,
+       args := if r.more && cfg.showArgs then s.args else 0 }]
   else []
 
 def replayTask (cfg : Cfg) (tid : Nat) (s : TaskSt) (r : Rec) : TaskSt × List Shown :=
@@ -329,6 +346,101 @@ def scriptRun (cfg : Cfg) (s : List (Nat × Rec)) : G × List Cb :=
 /-- command_replay --no-merge -/
 def replayShown (cfg : Cfg) (s : List (Nat × Rec)) : G × List Shown :=
   runWith (replayTask cfg) (g0 cfg) s
+
+
+/-! ### fix-up records: exec, setjmp / longjmp, fork (utils/fstack.c fstack_entry, fstack_update,
+    fstack_account_time)
+
+fstack_entry matches the function against `sess->fixups` before it looks at the filters (but after the
+`out_count > 0` test): an `exec*` call flags its frame FSTACK_FL_EXEC, a `*longjmp*` call FSTACK_FL_LONGJMP,
+a `*setjmp*` call stores `display_depth + 1` and `stack_count` into the two file-level statics
+`setjmp_depth` / `setjmp_count` (one pair for all tasks: the most recently seen setjmp), a `fork` /
+`vfork` / `daemon` call stores `display_depth + 1` into `task->fork_display_depth` and `stack_count` into
+`task->fork_stack_count`.  The main loops
+read the display depth (what is printed / passed to the script) *before* fstack_update(ENTRY), which
+for a flagged frame does not increment the display depth but resets it — and `stack_count` — to 0
+(exec) or to the setjmp values (longjmp).  A task whose parent (`ppid`) has a `fork_display_depth`
+starts at that display depth (fstack_account_time, first record). -/
+
+/-- the state of the main loops with the fix-ups: the tasks, `fork_display_depth` (0: none) and
+    `fork_stack_count` of every task, and the two statics -/
+structure XSt where
+  g : G
+  fork : Nat → Nat
+  forkCount : Nat → Nat
+  sjDepth : Nat
+  sjCount : Nat
+
+def x0 (cfg : Cfg) : XSt := { g := g0 cfg, fork := fun _ => 0, forkCount := fun _ => 0, sjDepth := 0, sjCount := 0 }
+
+@[noinline] def updN (f : Nat → Nat) (i v : Nat) : Nat → Nat := fun j => if j = i then v else f j
+
+/-- fstack_account_time, `if (!task->fork_handled)`: a task inherits its parent's fork display depth at
+    its first record `r`, moved by the distance between its own stack count (taken from that record) and the
+    parent's at the fork() it replayed last (`display_depth += stack_count - parent->fork_stack_count`,
+    not below 0) -/
+def inheritFork (cfg : Cfg) (x : XSt) (i : Nat) (s : TaskSt) (r : Rec) : TaskSt :=
+  if s.started then s else
+  match cfg.parent i with
+  | some p =>
+    if x.fork p != 0 then { s with disp := x.fork p + firstCount r - x.forkCount p, dispSet := true } else s
+  | none => s
+
+/-- read_rstack for task `i` with the fork inheritance -/
+def consumeX (cfg : Cfg) (x : XSt) (i : Nat) (r : Rec) : TaskSt := consume cfg (inheritFork cfg x i (x.g i) r) r
+
+/-- the fix-up found by fstack_entry (`s` = task after `consumeX`): none inside a -N region -/
+def fixKind (cfg : Cfg) (s : TaskSt) (r : Rec) : FixKind := if eOut s then .none else cfg.fix r.addr
+
+/-- the statics and `fork_display_depth` after fstack_entry: `display_depth` is the one before the
+    `display_depth_set` initialisation at the end of fstack_entry -/
+def fixGlobals (cfg : Cfg) (x : XSt) (i : Nat) (s : TaskSt) (r : Rec) : XSt :=
+  match fixKind cfg s r with
+  | .setjmp => { x with sjDepth := s.disp + 1, sjCount := s.stackCount }
+  | .fork => { x with fork := updN x.fork i (s.disp + 1), forkCount := updN x.forkCount i s.stackCount }
+  | _ => x
+
+/-- fstack_update(UFTRACE_ENTRY, …) with the fix-ups -/
+def updateEntryX (k : FixKind) (sjDepth sjCount : Nat) (s : TaskSt) : TaskSt :=
+  match k with
+  | .exec => { s with disp := 0, stackCount := 0 }
+  | .longjmp => { s with disp := sjDepth, stackCount := sjCount }
+  | _ => { s with disp := s.disp + 1 }
+
+/-- the task after an ENTRY went through fstack_entry and — when accepted — fstack_update; the same
+    statements in run_script_for_rstack and in print_graph_rstack -/
+def entryStX (cfg : Cfg) (x : XSt) (i : Nat) (s : TaskSt) (r : Rec) : TaskSt :=
+  if accepted cfg s r then
+    updateEntryX (fixKind cfg s r) (fixGlobals cfg x i s r).sjDepth (fixGlobals cfg x i s r).sjCount (fstackEntry cfg s r)
+  else fstackEntry cfg s r
+
+def putTask (x : XSt) (i : Nat) (s : TaskSt) : XSt := { x with g := upd x.g i s }
+
+/-- read_rstack + run_script_for_rstack for one record of task `i` -/
+def scriptTaskX (cfg : Cfg) (i : Nat) (x : XSt) (r : Rec) : XSt × List Cb :=
+  if r.exit then (putTask x i (scriptExitSt (consumeX cfg x i r)), scriptExitCb cfg i (consumeX cfg x i r) r)
+  else (putTask (fixGlobals cfg x i (consumeX cfg x i r) r) i (entryStX cfg x i (consumeX cfg x i r) r),
+        scriptEntryCb cfg i (consumeX cfg x i r) r)
+
+/-- read_rstack + print_graph_rstack (--no-merge) for one record of task `i` -/
+def replayTaskX (cfg : Cfg) (i : Nat) (x : XSt) (r : Rec) : XSt × List Shown :=
+  if r.exit then (putTask x i (replayExitSt (consumeX cfg x i r)), replayExitLine cfg i (consumeX cfg x i r) r)
+  else (putTask (fixGlobals cfg x i (consumeX cfg x i r) r) i (entryStX cfg x i (consumeX cfg x i r) r),
+        replayEntryLine cfg i (consumeX cfg x i r) r)
+
+def runX {α : Type} (step : Nat → XSt → Rec → XSt × List α) : XSt → List (Nat × Rec) → XSt × List α
+  | x, [] => (x, [])
+  | x, (i, r) :: rest =>
+    let out := runX step (step i x r).1 rest
+    (out.1, (step i x r).2 ++ out.2)
+
+/-- command_script on data with fix-up records -/
+def scriptRunX (cfg : Cfg) (s : List (Nat × Rec)) : XSt × List Cb :=
+  ((runX (scriptTaskX cfg) (x0 cfg) s).1, .begin :: (runX (scriptTaskX cfg) (x0 cfg) s).2 ++ [.end_])
+
+/-- command_replay --no-merge on data with fix-up records -/
+def replayShownX (cfg : Cfg) (s : List (Nat × Rec)) : XSt × List Shown :=
+  runX (replayTaskX cfg) (x0 cfg) s
 
 /-- a shown line as the callback it corresponds to -/
 def Shown.toCb (l : Shown) : Cb :=
@@ -536,6 +648,64 @@ def hpRun : List HCtx → List HookEv → Option (List HCtx)
     | none => none
 
 end Hook
+
+/-! ## Part 2b: how a language binding's per-call hooks enter the interpreter (record time)
+
+utils/script-python.c: `python_uftrace_entry / _exit / _event` take `python_interpreter_lock`
+(pthread_mutex_lock) around everything they do with the interpreter.  utils/script-luajit.c has one
+`lua_State` for the process and — before the repair of finding F-C18-LUA-NOLOCK — no lock.  At record
+time the hooks run on every thread of the traced program. -/
+namespace Bind
+
+inductive Mode where
+  | lock      -- pthread_mutex_lock: wait for the interpreter
+  | trylock   -- take it if it is free, otherwise return without calling the script
+  | nolock    -- call into the interpreter state at once
+deriving DecidableEq, Repr
+
+/-- what the threads of the traced program do, in real-time order -/
+inductive Step where
+  | hook (t : Nat) (c : Nat)   -- thread `t` reaches script_uftrace_entry / script_uftrace_exit with callback `c`
+  | done (t : Nat)             -- the callback the interpreter runs for thread `t` returns
+deriving DecidableEq, Repr
+
+structure BSt where
+  running : List (Nat × Nat) := []   -- (thread, callback) executing inside the interpreter state
+  waiting : List (Nat × Nat) := []   -- threads blocked in pthread_mutex_lock, in arrival order
+  log : List (Nat × Nat) := []       -- what the script has been called with, in order
+  issued : List (Nat × Nat) := []    -- every hook that reached the binding, in order
+  corrupt : Bool := false            -- two threads were inside the one interpreter state at the same time
+deriving DecidableEq, Repr
+
+def enter (s : BSt) (x : Nat × Nat) : BSt := { s with running := s.running ++ [x], log := s.log ++ [x] }
+
+def step (m : Mode) (s : BSt) : Step → BSt
+  | .hook t c =>
+    let s1 := { s with issued := s.issued ++ [(t, c)] }
+    match m with
+    | .lock => if s.running.isEmpty then enter s1 (t, c) else { s1 with waiting := s.waiting ++ [(t, c)] }
+    | .trylock => if s.running.isEmpty then enter s1 (t, c) else s1
+    | .nolock => { enter s1 (t, c) with corrupt := s.corrupt || !s.running.isEmpty }
+  | .done t =>
+    let r := s.running.filter (fun x => x.1 != t)
+    match m with
+    | .lock =>
+      if r.isEmpty then
+        (match s.waiting with
+         | w :: ws => { s with running := [w], waiting := ws, log := s.log ++ [w] }   -- the mutex goes to a waiter
+         | [] => { s with running := [] })
+      else { s with running := r }
+    | _ => { s with running := r }
+
+def run (m : Mode) : BSt → List Step → BSt
+  | s, [] => s
+  | s, x :: xs => run m (step m s x) xs
+
+/-- the callbacks of one thread -/
+def ofThread (t : Nat) (l : List (Nat × Nat)) : List Nat := (l.filter fun x => x.1 == t).map (·.2)
+
+end Bind
+
 /-! ## Part 3: the argument / return-value buffer as the writer lays it out and the three
     readers walk it (libmcount/record.c save_to_argbuf; cmds/replay.c get_argspec_string;
     utils/script-python.c and utils/script-luajit.c setup_argument_context).  The sizes and
